@@ -35,6 +35,7 @@ type report struct {
 	Policies      int                      `json:"policies"`
 	Retries       int                      `json:"retries"`
 	Unreplayable  []string                 `json:"unreplayable"`
+	UnreplayableN int                      `json:"unreplayable_count"`
 	Queries       int                      `json:"auth_queries"`
 	Refetches     int                      `json:"refetches"`
 	Denials       int                      `json:"denials"`
@@ -327,6 +328,7 @@ func drive(args []string, random bool) int {
 	R.Policies = len(policies)
 	R.DistinctCases = len(R.CaseCounts)
 	R.WallS = time.Since(start).Seconds()
+	R.UnreplayableN = len(R.Unreplayable)
 	if len(R.Unreplayable) > len(behs)/50+3 && R.Inconclusive == "" {
 		R.Inconclusive = fmt.Sprintf("%d of %d behaviours could not be replayed (timing)", len(R.Unreplayable), len(behs))
 	}
